@@ -233,6 +233,11 @@ func (vt *Model) cnl(ps int) {
 	if ps == 0 {
 		ps = 1
 	}
+	// Moving down more lines than the screen has scrolls everything out,
+	// there is no point in doing it billions of times
+	if ps > vt.height() {
+		ps = vt.height()
+	}
 	for i := 0; i < ps; i += 1 {
 		vt.nel()
 	}
@@ -244,6 +249,9 @@ func (vt *Model) cpl(ps int) {
 	vt.lastCol = false
 	if ps == 0 {
 		ps = 1
+	}
+	if ps > vt.height() {
+		ps = vt.height()
 	}
 	for i := 0; i < ps; i += 1 {
 		vt.ri()
